@@ -13,5 +13,6 @@ PROPERTY TrimOnlyEnds
 PROPERTY AppendIsConcat
 PROPERTY HeaderUntouched
 PROPERTY IndentKeepsCount
+PROPERTY BareUsesConfigured
 CONSTRAINT Emit
 CHECK_DEADLOCK FALSE
